@@ -205,6 +205,9 @@ pub struct Cfg {
     pub derived: bool,
     /// Fail this sink call (0-based) while the Cli is being constructed
     pub build_fault: Option<usize>,
+    /// Order of the CliBuilder calls: 0 = writer, buffers, prompt; 1 = prompt, writer, buffers;
+    /// 2 = buffers, prompt, writer; 3 = prompt, buffers, writer
+    pub builder_order: usize,
 }
 
 impl Default for Cfg {
@@ -221,6 +224,7 @@ impl Default for Cfg {
             use_new: false,
             derived: false,
             build_fault: None,
+            builder_order: 0,
         }
     }
 }
@@ -308,6 +312,10 @@ impl Trace {
             s.pop();
             let _ = writeln!(s, " buildfail={k}");
         }
+        if c.builder_order != 0 {
+            s.pop();
+            let _ = writeln!(s, " border={}", c.builder_order);
+        }
         for e in &self.events {
             for f in &e.faults {
                 let _ = writeln!(s, "fail call={} n={}", f.call, f.n);
@@ -390,6 +398,8 @@ impl Trace {
                             c.use_new = v == "new";
                         } else if let Some(v) = kv(t, "proc") {
                             c.derived = v == "derived";
+                        } else if let Some(v) = kv(t, "border") {
+                            c.builder_order = v.parse().map_err(|_| err(format!("bad {t}")))?;
                         } else if let Some(v) = kv(t, "buildfail") {
                             c.build_fault = Some(v.parse().map_err(|_| err(format!("bad {t}")))?);
                         } else {
